@@ -69,6 +69,88 @@ pub fn lib_opts(tier: Tier, rng: &mut Rng) -> LibOpts {
     o
 }
 
+/// C07: every sequence of heading levels 1..=6 up to length 5 (quick) / 7 (thorough), sharded
+const HEADING_SHARDS: u64 = 16;
+
+fn heading_sequences_case(tier: Tier, shard: u64, rep: &mut CaseReport) {
+    let max_len = tier.pick(5usize, 7usize);
+    let mut seq: Vec<u8> = vec![];
+    let mut index: u64 = 0;
+    let mut identity = 0u64;
+    let mut remapped = 0u64;
+    // iterative enumeration in length-lexicographic order
+    fn rec(seq: &mut Vec<u8>, max_len: usize, index: &mut u64, shard: u64, f: &mut dyn FnMut(&[u8])) {
+        if !seq.is_empty() {
+            if *index % HEADING_SHARDS == shard {
+                f(seq);
+            }
+            *index += 1;
+        }
+        if seq.len() == max_len {
+            return;
+        }
+        for l in 1..=6u8 {
+            seq.push(l);
+            rec(seq, max_len, index, shard, f);
+            seq.pop();
+        }
+    }
+    let mut violations: Vec<(String, String, String)> = vec![];
+    let mut n = 0u64;
+    let mut f = |levels: &[u8]| {
+        n += 1;
+        let mut text = String::new();
+        for (i, l) in levels.iter().enumerate() {
+            // setext spelling for some level 1-2 headings
+            if *l <= 2 && (i + levels.len()) % 3 == 0 {
+                text.push_str(&format!("head{}\n{}\n\n", i, if *l == 1 { "===" } else { "---" }));
+            } else {
+                text.push_str(&format!("{} head{}\n\n", "#".repeat(*l as usize), i));
+            }
+            text.push_str(&format!("para{}\n\n", i));
+        }
+        let mut texts = BTreeMap::new();
+        texts.insert("n1".to_string(), text.clone());
+        let out = match mon::catch(|| export_lib(&texts, "")) {
+            Ok(o) => o["n1"].clone(),
+            Err(p) => {
+                violations.push(("panic".into(), format!("{:?}", levels), p.message));
+                return;
+            }
+        };
+        let view = LibView::new(&texts);
+        let cmp = oracle::compare_norm(&view.scans["n1"], &mdscan::scan(&out), "", &view);
+        if oracle::well_nested(levels) {
+            identity += 1;
+        } else {
+            remapped += 1;
+        }
+        for d in cmp.c07.iter().chain(cmp.c01.iter()).take(1) {
+            if violations.len() < 3 {
+                violations.push((d.clause.to_string(), format!("levels {:?}", levels), format!("{} | input:\n{}output:\n{}", d.detail, text, out)));
+            }
+        }
+        // formatting the result again changes nothing
+        let mut t2 = BTreeMap::new();
+        t2.insert("n1".to_string(), out.clone());
+        if let Ok(o2) = mon::catch(|| export_lib(&t2, "")) {
+            if o2["n1"] != out && violations.len() < 3 {
+                violations.push(("not-fixpoint".into(), format!("levels {:?}", levels), out.clone()));
+            }
+        }
+    };
+    rec(&mut seq, max_len, &mut index, shard, &mut f);
+    rep.count("events", n);
+    rep.count("heading_sequences", n);
+    rep.count("heading_sequences_well_nested_in", identity);
+    rep.count("heading_sequences_remapped", remapped);
+    rep.shape(fnv(&format!("heading-shard-{}", shard)));
+    rep.shape(fnv(&format!("heading-shard-{}-b", shard)));
+    for (c, l, d) in violations {
+        rep.violate(&c, "heading-sequences", format!("{}: {}", l, d), json!({"levels": l}));
+    }
+}
+
 fn random_cases(tier: Tier) -> u64 {
     tier.pick(3000, 60000)
 }
@@ -91,7 +173,7 @@ impl Check for NormCheck {
     }
     fn plan(&self, tier: Tier, _seed: u64) -> Plan {
         Plan {
-            cases: random_cases(tier) + PINNED.len() as u64,
+            cases: random_cases(tier) + PINNED.len() as u64 + if self.prop == "C07" { HEADING_SHARDS } else { 0 },
             procs: 16,
             wall_s: 120,
             cpu_s: None,
@@ -103,6 +185,10 @@ impl Check for NormCheck {
 
     fn run_case(&self, tier: Tier, seed: u64, case: u64) -> CaseReport {
         let mut rep = CaseReport::new(case);
+        if case >= random_cases(tier) + PINNED.len() as u64 {
+            heading_sequences_case(tier, case - random_cases(tier) - PINNED.len() as u64, &mut rep);
+            return rep;
+        }
         let mut rng = Rng::for_case(seed, "norm", case);
         let o = lib_opts(tier, &mut rng);
         let pinned = if case >= random_cases(tier) {
